@@ -8,7 +8,7 @@
    ObjQueueMax).  Time: local steps take no time, waiting does (maximal progress); the runtime's scheduling latency is
    the slack of the wall-clock monitor, not part of the model. *)
 From Coq Require Import List NArith ZArith.
-From TarsV Require Import Base.Hex Gen.C09Consts Conc.CallLife Conc.CallLifeProofs.
+From TarsV Require Import Base.Hex Gen.C09Consts Conc.CallLife Conc.CallLifeProofs Conc.TimeWheel Conc.TimeWheelProofs.
 Import ListNotations.
 Open Scope N_scope.
 
@@ -153,3 +153,34 @@ Print Assumptions C09_wheel_not_early.
 Theorem C09_wheel_not_late : forall T, lo T <= T.
 Proof. exact CallLifeProofs.wheel_not_late. Qed.
 Print Assumptions C09_wheel_not_late.
+
+(* the wheel itself (Conc/TimeWheel.v, model of rtimer/timewheel.go): the channel returned by After is open during the
+   first pos ticks and closed from tick pos+1 on *)
+Theorem C09_wheel_after_fires : forall t timeout w ch, (0 < t)%N -> wf w -> after t timeout w = Some ch ->
+  let pos := after_pos t timeout in
+  (forall n, (n <= pos)%nat -> closed (wticks n w) ch = false) /\
+  (forall n, (pos < n)%nat -> closed (wticks n w) ch = true).
+Proof. exact TimeWheelProofs.after_fires. Qed.
+Print Assumptions C09_wheel_after_fires.
+
+(* rtimer.After(T), T a positive multiple of the accuracy (every millisecond duration is one): slot accuracy-1, no panic,
+   fires in (T - T/accuracy, T] *)
+Theorem C09_wheel_default_slot : forall q, (0 < q)%N ->
+  after_pos (rt_tick (c_rtimer_accuracy * q)) (c_rtimer_accuracy * q) = pred (N.to_nat c_rtimer_accuracy).
+Proof. exact TimeWheelProofs.rt_after_pos. Qed.
+Print Assumptions C09_wheel_default_slot.
+
+Theorem C09_wheel_no_panic : forall q w, (0 < q)%N -> w_size w = rt_size -> rt_after (c_rtimer_accuracy * q) w <> None.
+Proof. exact TimeWheelProofs.rt_after_no_panic. Qed.
+Print Assumptions C09_wheel_no_panic.
+
+Theorem C09_wheel_ms_multiple : forall ms, exists q, (ms * 1000000 = c_rtimer_accuracy * q)%N.
+Proof. exact TimeWheelProofs.ms_is_multiple. Qed.
+Print Assumptions C09_wheel_ms_multiple.
+
+Theorem C09_wheel_fire_window : forall t phi, (0 < phi <= t)%N ->
+  let T := (c_rtimer_accuracy * t)%N in
+  let fire := (phi + (c_rtimer_accuracy - 1) * t)%N in
+  (T - T / c_rtimer_accuracy < fire /\ fire <= T)%N.
+Proof. exact TimeWheelProofs.fire_time_window. Qed.
+Print Assumptions C09_wheel_fire_window.
